@@ -200,6 +200,7 @@ var shapesByRank = [][][]int{
 // ---------- emitter ----------
 
 type gen struct {
+	envNames []string
 	cfg   Config
 	st    *evid.Stats
 	env   *Env
@@ -256,6 +257,11 @@ func (g *gen) run(c *Case, nontrivial bool) {
 		g.journal.WriteAt(b[:], 0)
 	}
 	g.st.Evals++
+	if c.Env == nil && len(g.envNames) > 0 {
+		if c.Env = evid.DrawEnv(g.envNames, rng.Mix(g.cfg.Seed, uint64(seq)*31+uint64(g.cfg.W))); c.Env != nil {
+			g.st.Fault("environment-variable-set")
+		}
+	}
 	vs := g.check(c, g.env)
 	for _, f := range c.Faults {
 		g.st.Fault(f.Kind)
@@ -375,7 +381,7 @@ func genBases() []base {
 // Worker runs this worker's share of the case space for cfg.Prop.
 func Worker(cfg Config) *evid.Stats {
 	st := evid.NewStats()
-	g := &gen{cfg: cfg, st: st, env: &Env{Scratch: cfg.Scratch, Stats: st}, vcap: 8}
+	g := &gen{cfg: cfg, st: st, env: &Env{Scratch: cfg.Scratch, Stats: st}, vcap: 8, envNames: evid.EnvNames()}
 	if cfg.Journal != "" && cfg.EmitOut == "" {
 		g.journal, _ = os.Create(cfg.Journal)
 	}
